@@ -64,8 +64,9 @@ def check(rep, name, cases, impl_bin, impl_args, oracle, nontrivial, model_ok, h
     if dis_oracle:
         c, i, exp = min(dis_oracle, key=lambda x: len(x[0]))
         w = c.split()
-        toks = vlib.shrink_tokens(w[:head_tokens], w[head_tokens:], fails_oracle)
-        line = " ".join(w[:head_tokens] + toks)
+        ht = head_tokens(c) if callable(head_tokens) else head_tokens
+        toks = vlib.shrink_tokens(w[:ht], w[ht:], fails_oracle)
+        line = " ".join(w[:ht] + toks)
         got = vlib.run_lines(impl_bin, impl_args, [line], shards=1)[0]
         rep.violation(name + "-oracle", {"kind": "property-violated-on-implementation", "case": line,
                                          "observed": got, "expected_by_property": oracle(line),
@@ -73,8 +74,9 @@ def check(rep, name, cases, impl_bin, impl_args, oracle, nontrivial, model_ok, h
     elif dis_model:
         c, i, m = min(dis_model, key=lambda x: len(x[0]))
         w = c.split()
-        toks = vlib.shrink_tokens(w[:head_tokens], w[head_tokens:], fails_model)
-        line = " ".join(w[:head_tokens] + toks)
+        ht = head_tokens(c) if callable(head_tokens) else head_tokens
+        toks = vlib.shrink_tokens(w[:ht], w[ht:], fails_model)
+        line = " ".join(w[:ht] + toks)
         rep.violation(name + "-correspondence", {"kind": "broken-correspondence",
                                                  "what": "model and implementation differ; the direct oracle accepts the implementation's output on every case explored",
                                                  "case": line, "implementation": vlib.run_lines(impl_bin, impl_args, [line], shards=1)[0],
